@@ -3,6 +3,7 @@ package timedom
 import (
 	"fmt"
 	"math/big"
+	"strconv"
 	"time"
 
 	"github.com/bluenviron/gortsplib/v5/pkg/ntp"
@@ -20,6 +21,11 @@ type NtpBatch struct {
 	Values   []uint64 `json:"values"`
 }
 
+var (
+	bigE9       = big.NewInt(1000000000)
+	bigOffsetNs = new(big.Int).Mul(big.NewInt(2208988800), big.NewInt(1000000000))
+)
+
 const (
 	ntpMinNs = -2208988800 * 1000000000 // 1900-01-01: NTP era 0 starts
 	ntpMaxNs = 2085978496 * 1000000000  // 2036-02-07 06:28:16: NTP era 0 ends
@@ -33,11 +39,11 @@ func ntpRun(c *corr.Ctx, b *NtpBatch, name string) {
 	for _, ns := range b.Instants {
 		t := time.Unix(0, ns)
 		v := ntp.Encode(t)
-		cs.Ops = append(cs.Ops, fmt.Sprintf("time ntpenc %d", ns))
-		cs.Impl = append(cs.Impl, fmt.Sprintf("%d", v))
+		cs.Ops = append(cs.Ops, "time ntpenc "+strconv.FormatInt(ns, 10))
+		cs.Impl = append(cs.Impl, strconv.FormatUint(v, 10))
 		back := ntp.Decode(v)
-		cs.Ops = append(cs.Ops, fmt.Sprintf("time ntpdec %d", v))
-		cs.Impl = append(cs.Impl, fmt.Sprintf("%d", back.UnixNano()))
+		cs.Ops = append(cs.Ops, "time ntpdec "+strconv.FormatUint(v, 10))
+		cs.Impl = append(cs.Impl, strconv.FormatInt(back.UnixNano(), 10))
 		// ---- property oracle: Decode(Encode(t)) within 1 ns of t for instants of NTP era 0 ----
 		if ns >= ntpMinNs && ns < ntpMaxNs {
 			diff := back.Sub(t)
@@ -48,11 +54,11 @@ func ntpRun(c *corr.Ctx, b *NtpBatch, name string) {
 			}
 			// the encoded value is the RFC 3550 fixed point of t to within half a unit of 2^-32 s:
 			// |v - (ns + offset)·2^32/10^9| ≤ 1/2   (exact rational arithmetic)
-			exact := new(big.Rat).SetFrac(
-				new(big.Int).Lsh(new(big.Int).Add(big.NewInt(ns), new(big.Int).Mul(big.NewInt(2208988800), big.NewInt(1000000000))), 32),
-				big.NewInt(1000000000))
-			dv := new(big.Rat).Sub(new(big.Rat).SetInt(new(big.Int).SetUint64(v)), exact)
-			if dv.Abs(dv).Cmp(big.NewRat(1, 2)) > 0 {
+			// 2·|v·10^9 − (ns + offset)·2^32| ≤ 10^9
+			lhs := new(big.Int).Mul(new(big.Int).SetUint64(v), bigE9)
+			lhs.Sub(lhs, new(big.Int).Lsh(new(big.Int).Add(big.NewInt(ns), bigOffsetNs), 32))
+			lhs.Lsh(lhs.Abs(lhs), 1)
+			if lhs.Cmp(bigE9) > 0 {
 				viol("Encode is the nearest 32.32 fixed-point value", "ntp-encode-nearest", fmt.Sprintf("t=%d ns: v=%d", ns, v),
 					&NtpBatch{Kind: "ntp", Instants: []int64{ns}})
 			}
@@ -70,11 +76,11 @@ func ntpRun(c *corr.Ctx, b *NtpBatch, name string) {
 	}
 	for _, v := range b.Values {
 		t := ntp.Decode(v)
-		cs.Ops = append(cs.Ops, fmt.Sprintf("time ntpdec %d", v))
-		cs.Impl = append(cs.Impl, fmt.Sprintf("%d", t.UnixNano()))
+		cs.Ops = append(cs.Ops, "time ntpdec "+strconv.FormatUint(v, 10))
+		cs.Impl = append(cs.Impl, strconv.FormatInt(t.UnixNano(), 10))
 		v2 := ntp.Encode(t)
-		cs.Ops = append(cs.Ops, fmt.Sprintf("time ntpenc %d", t.UnixNano()))
-		cs.Impl = append(cs.Impl, fmt.Sprintf("%d", v2))
+		cs.Ops = append(cs.Ops, "time ntpenc "+strconv.FormatInt(t.UnixNano(), 10))
+		cs.Impl = append(cs.Impl, strconv.FormatUint(v2, 10))
 		// ---- property oracle: Encode(Decode(v)) within 1 ns of v: |v2 - v|·10^9/2^32 < 1, i.e. at most 4 units ----
 		var d uint64
 		if v2 > v {
@@ -87,14 +93,14 @@ func ntpRun(c *corr.Ctx, b *NtpBatch, name string) {
 				"ntp-encode-decode", fmt.Sprintf("v=%d: Encode(Decode(v))=%d", v, v2), &NtpBatch{Kind: "ntp", Values: []uint64{v}})
 		}
 		// Decode is the floor of the exact value in ns
-		exact := new(big.Rat).SetFrac(new(big.Int).Mul(new(big.Int).SetUint64(v), big.NewInt(1000000000)), two32)
-		exact.Sub(exact, new(big.Rat).SetInt(new(big.Int).Mul(big.NewInt(2208988800), big.NewInt(1000000000))))
-		dt := new(big.Rat).Sub(exact, new(big.Rat).SetInt64(t.UnixNano()))
-		if dt.Sign() < 0 || dt.Cmp(big.NewRat(1, 1)) >= 0 {
+		// 0 ≤ v·10^9 − (Decode(v) + offset)·2^32 < 2^32
+		rem := new(big.Int).Mul(new(big.Int).SetUint64(v), bigE9)
+		rem.Sub(rem, new(big.Int).Lsh(new(big.Int).Add(big.NewInt(t.UnixNano()), bigOffsetNs), 32))
+		if rem.Sign() < 0 || rem.Cmp(two32) >= 0 {
 			viol("Decode is within 1 ns of the fixed-point value", "ntp-decode-floor", fmt.Sprintf("v=%d: %d ns", v, t.UnixNano()),
 				&NtpBatch{Kind: "ntp", Values: []uint64{v}})
 		}
-		c.Dist(fmt.Sprintf("ntp:value-roundtrip-delta=%d", d))
+		c.Dist(deltaKeys[min(d, 5)])
 	}
 	c.Add(cs)
 }
@@ -142,6 +148,8 @@ func genNtpBatch(c *corr.Ctx, n int) *NtpBatch {
 	}
 	return b
 }
+
+var deltaKeys = [6]string{"ntp:value-roundtrip-delta=0", "ntp:value-roundtrip-delta=1", "ntp:value-roundtrip-delta=2", "ntp:value-roundtrip-delta=3", "ntp:value-roundtrip-delta=4", "ntp:value-roundtrip-delta>4"}
 
 // nearHalfFractions: nanosecond fractions n for which frac(n·2^32/10^9) is as close to 1/2 as the
 // arithmetic permits (|frac − 1/2| = 1/(2·5^9)); found by solving n·2^23 ≡ (5^9 ± 1)/2 (mod 5^9).
